@@ -79,3 +79,10 @@ ENTRIES += [
     {'id': 'C10/benign-ascii-test-by-encode', 'prop': 'C10', 'kind': 'benign', 'edits': [('wpull/url.py', _PE_NEW_HEAD,
       "    if all(ord(char) < 128 for char in text):\n        return ''.join([mapping(char) for char in text.encode(encoding)])\n")]},
 ]
+
+ENTRIES += [
+    {'id': 'C10/probe-only-for-non-ascii-text', 'prop': 'C10', 'kind': 'break', 'expect': 'C10-D1', 'edits': [('wpull/url.py',
+      "        if PRINTABLE_ASCII.encode(encoding) != PRINTABLE_ASCII.encode('ascii'):", "        if NON_ASCII_PATTERN.search(url) is not None and PRINTABLE_ASCII.encode(encoding) != PRINTABLE_ASCII.encode('ascii'):")]},
+    {'id': 'C10/benign-probe-skipped-for-utf8', 'prop': 'C10', 'kind': 'benign', 'edits': [('wpull/url.py',
+      "        if PRINTABLE_ASCII.encode(encoding) != PRINTABLE_ASCII.encode('ascii'):", "        if PRINTABLE_ASCII.encode(encoding) != PRINTABLE_ASCII.encode('us-ascii'):")]},
+]
